@@ -87,15 +87,10 @@ func (s *sharedEntryAttributes) toJsonInternal(onlyNewOrUpdated bool, ietf bool)
 			return result, nil
 		case s.schema.GetContainer().IsPresence && s.containsOnlyDefaults():
 			// Presence container without any childs
-			if onlyNewOrUpdated {
-				// presence containers have leafvariantes with typedValue_Empty, so check that
-				if s.leafVariants.shouldDelete() {
-					return nil, nil
-				}
-				le := s.leafVariants.GetHighestPrecedence(false, false)
-				if onlyNewOrUpdated && !(le.IsNew || le.IsUpdated) {
-					return nil, nil
-				}
+			// presence containers have leafvariantes with typedValue_Empty, the same rules as for
+			// every other value decide whether it is part of the requested view
+			if onlyNewOrUpdated && !s.presenceValueToRender(onlyNewOrUpdated) {
+				return nil, nil
 			}
 			return map[string]any{}, nil
 		default:
